@@ -36,7 +36,7 @@ func c02xProperty(t *rapid.T, st *Stats) {
 	fail := func(key, f string, a ...any) { Fail(t, st, key, fmt.Sprintf(f, a...), trace, nil) }
 	conf := func(root string) config.Config { return baseConf(config.StoreDir, root) }
 	root0 := tmp + "/count"
-	vfs.Reset(root0, false)
+	vfs.Reset(root0, true)
 	h0 := olareg.New(conf(root0))
 	for _, s := range steps {
 		if s.run == nil {
@@ -47,6 +47,7 @@ func c02xProperty(t *rapid.T, st *Stats) {
 		_ = s.run(h0)
 	}
 	total, totalReads := vfs.MutCount(), vfs.ReadCount()
+	indexReads := c12fReadOrdinals(vfs.Log(), root0, "/index.json")
 	_ = h0.Close()
 	if total == 0 {
 		st.Case([]string{"history without mutating call"}, false)
@@ -59,6 +60,10 @@ func c02xProperty(t *rapid.T, st *Stats) {
 		limit = totalReads
 	}
 	k := rapid.IntRange(1, limit).Draw(t, "faultAt")
+	if readFault && len(indexReads) > 0 && rapid.Bool().Draw(t, "readOfIndexJSON") {
+		// half of the reading faults go to the file everything else hangs on (uniform over its reads)
+		k = rapid.SampledFrom(indexReads).Draw(t, "indexRead")
+	}
 	k2 := 0
 	if !readFault && rapid.IntRange(0, 3).Draw(t, "secondFault") == 0 {
 		k2 = k + rapid.IntRange(1, 12).Draw(t, "secondFaultAfter")
